@@ -19,7 +19,7 @@ func init() {
 			tag   string
 			depth int
 		}
-		cfgs := []cfg{{c10.Universe(tier), "", 10}, {c10.Universe(tier), "/via-upgrade", 8}, {c10.Universe(tier), "/tiny-fee", 7}, {c10.Universe(tier), "/at-target", 6}, {c10.Universe(tier), "/digits", 8}, {c10.Universe(tier), "/upgrade-to-child", 8}, {c10.Universe(tier), "/expiry", 4}}
+		cfgs := []cfg{{c10.Universe(tier), "", 10}, {c10.Universe(tier), "/via-upgrade", 8}, {c10.Universe(tier), "/tiny-fee", 7}, {c10.Universe(tier), "/at-target", 6}, {c10.Universe(tier), "/digits", 8}, {c10.Universe(tier), "/upgrade-to-child", 8}, {c10.Universe(tier), "/expiry", 4}, {c10.Universe(tier), "/ahead", 7}}
 		if tier == "thorough" {
 			cfgs[0].depth, cfgs[1].depth = 12, 12
 			cfgs = append(cfgs, cfg{c10.EqualRootUniverse(), "/equal-state-roots", 9})
